@@ -52,7 +52,17 @@ func e2Check(t *testing.T, id, name string, checks int, rule string, p e2Profile
 			return *tr
 		},
 		func(tr E2Trace) pbt.Result {
-			res := runE2(tr, set)
+			sel := set
+			if len(props) == 0 {
+				sel = nil // all monitors; a violation is reported under the check's own property
+			}
+			res := runE2(tr, sel)
+			if len(props) == 0 && res.Violation != nil && res.Violation.Property != id {
+				v := *res.Violation
+				v.Signature = "safety/" + v.Property + "/" + v.Signature
+				v.Property = id
+				res.Violation = &v
+			}
 			res.NonTrivial = nt(res.Labels)
 			return res
 		})
@@ -176,4 +186,25 @@ func TestC15_isolated(t *testing.T) {
 	})
 	e2Check(t, "C15", "isolated", 1500, "as history, but with one JobConfig and at most two Jobs under heavy independent lag of the Job and JobConfig caches; the status is judged at quiescence before any resync; non-trivial = a Job was removed during the run; distinct = distinct trace",
 		p, []string{"C15"}, func(l []string) bool { return hasAny(l, "job-removed") })
+}
+
+// TestC20_history: the unrestricted workload (mixed per-Job policies, Forbid
+// under churn, cron at the queue limit: everything the differential has to leave
+// out because its fault-free outcome is order-dependent) under generated fault
+// patterns, judged by every safety monitor along the way and by the convergence
+// predicates (due Jobs started, results implied by the tasks, deletions and TTLs
+// completed, counters and JobConfig status equal to the truth) once calls
+// succeed again.
+func TestC20_history(t *testing.T) {
+	p := profileWith(baseProfile, func(p *e2Profile) {
+		p.faults, p.cron = true, true
+		p.weights["fault"] = 8
+		p.weights["createJob"] = 8
+		p.weights["tick"] = 4
+		p.weights["k-finish"] = 10
+	})
+	e2Check(t, "C20", "history", 1200, e2RuleCommon+"unrestricted workloads (per-Job policy overrides, Forbid, cron at the queue limit, cache lag) with generated transient API faults (rejected, timeout, conflict, applied-but-reported-failed; by actor/verb signature, bursts up to 3); oracle: all C02/C05-C13/C15 monitors on every write while the faults are active, and the convergence predicates after the faults are cleared and the system is driven to quiescence; non-trivial = a fault was injected; distinct = distinct trace",
+		p, nil, func(l []string) bool {
+			return hasAny(l, "fault:reject", "fault:timeout", "fault:conflict", "fault:commit-timeout")
+		})
 }
